@@ -98,10 +98,12 @@ func replayOne(id int, steps []step) (res result) {
 	if up {
 		sut.WaitRefresh(px.Name, 2*time.Second)
 	}
+	var lost int64 // backend connections the faults so far have taken away: each one's client must drain and remove itself
 	settle := func() {
-		// let the proxy finish processing a loss: its dying clients drain and remove themselves
-		dl := time.Now().Add(500 * time.Millisecond)
-		for time.Now().Before(dl) && node.ConnCount() > 0 && node.IsDown() {
+		// let the proxy finish processing the losses: every dying client reaches the end of its drain (hook) and then
+		// removes itself from the table
+		dl := time.Now().Add(3 * time.Second)
+		for time.Now().Before(dl) && atomic.LoadInt64(&drained) < atomic.LoadInt64(&lost) {
 			time.Sleep(time.Millisecond)
 		}
 		time.Sleep(25 * time.Millisecond)
@@ -167,10 +169,12 @@ func replayOne(id int, steps []step) (res result) {
 			}
 		case "ConnLost":
 			res.Faults++
+			atomic.AddInt64(&lost, int64(node.ConnCount()))
 			node.ResetConns(true)
 			lastFaultAccepts = node.AcceptCount()
 		case "BackendDown":
 			res.Faults++
+			atomic.AddInt64(&lost, int64(node.ConnCount()))
 			node.Shutdown()
 			lastFaultAccepts = node.AcceptCount()
 		case "BackendUp":
@@ -180,6 +184,7 @@ func replayOne(id int, steps []step) (res result) {
 			}
 		case "ResetAll":
 			res.Faults++
+			atomic.AddInt64(&lost, int64(node.ConnCount()))
 			px.P.OnSvcAllHostReplace([]*host.Host{host.New(node.Addr)})
 			lastFaultAccepts = node.AcceptCount()
 		}
